@@ -2,7 +2,7 @@
 from . import twin
 
 OWNED = ["C10."]
-REQUIRED = ["C10.same_solver.trial_steps_identical", "C10.same_solver.same_solution", "C10.same_solver.same_status", "C10.fresh_solver.trial_steps_identical", "C10.fresh_solver.same_solution", "C10.params_object_not_modified"]
+REQUIRED = ["C10.same_solver.trial_steps_identical", "C10.same_solver.same_solution", "C10.same_solver.same_status", "C10.fresh_solver.trial_steps_identical", "C10.fresh_solver.same_solution", "C10.params_object_not_modified", "C10.same_solver.step_controller_starts_in_the_same_state", "C10.fresh_solver.step_controller_starts_in_the_same_state"]
 META = dict(
     functions_encoded=twin.FUNCTIONS,
     stubs=["three solves in ONE symbolic execution: A on a new Solver, B on the same Solver object, C on a fresh Solver afterwards; the step oracle of B and C replays the outputs A received, the user problem is the same uninterpreted functions"],
